@@ -1,3 +1,7 @@
 import MpirProofs.Lemmas.Base
 import MpirProofs.Lemmas.Kernels
 import MpirProofs.Props.C03
+import MpirProofs.Lemmas.MulAlgo
+import MpirProofs.Lemmas.MulDispatch
+import MpirProofs.Lemmas.FftParams
+import MpirProofs.Props.C01_algo
